@@ -3,6 +3,9 @@ package main
 // Symbolic values and memory.
 
 import (
+	"os"
+	"runtime/debug"
+	"strings"
 	"fmt"
 	"go/types"
 	"math/big"
@@ -175,7 +178,11 @@ type execError struct{ msg string }
 func (e execError) Error() string { return e.msg }
 
 func fail(format string, a ...interface{}) {
-	panic(execError{fmt.Sprintf(format, a...)})
+	msg := fmt.Sprintf(format, a...)
+	if pat := os.Getenv("VERIF_FAILSTACK"); pat != "" && strings.Contains(msg, pat) {
+		debug.PrintStack()
+	}
+	panic(execError{msg})
 }
 
 // ---------- types ----------
